@@ -45,8 +45,9 @@
   Attribute types are a small alphabet (Integer, String, Boolean, Float, Any, Undef, Optional[T], NotUndef[T],
   Variant[A,B], Array[T]) with a decidable instance test (`inst`), the assignability the override check uses (`asg`) and
   the rewriting of the named constructor's init Struct (`tyInit`); nothing else in this file depends on which.
-  Not modelled (outside the universe the driver accepts): functions, type parameters, annotations, a hash literal with a
-  repeated key, an array given through `constants => {}` (the type inferred for it is C04's business).
+  Member functions: `Def.funcs`, `findFn`, `assertOverrideFn`, `defineFuncs` (interfaces: Model/ObjectFuncs).
+  Not modelled (outside the universe the driver accepts): a function that shares its name with an attribute or constant
+  of its chain (implementation-only `@fnover`, `@msg`), annotations, a hash literal with a repeated key, an array given through `constants => {}` (the type inferred for it is C04's business).
   Core-only file (linked into the driver).
 -/
 namespace Pcore.Object
@@ -230,6 +231,15 @@ def Attr.implicit (a : Attr) : Except Code Val :=
     | some v => .ok v
     | none => .error .attributeHasNoValue
 
+/-- a member FUNCTION `name => {type => Callable[[0,0],ret], override, final}`: every function of the universe takes no
+    argument, so its type is its return type -/
+structure FnDecl where
+  name : String
+  ret : Ty
+  override : Bool := false
+  final : Bool := false
+  deriving DecidableEq, Repr, Inhabited
+
 inductive EqDecl where
   | absent | one (s : String) | many (l : List String)
   deriving DecidableEq, Repr, Inhabited
@@ -245,6 +255,8 @@ structure Def where
   constants : List (String × Val) := []
   /-- `type_parameters => {name => Type}` -/
   params : List (String × Ty) := []
+  /-- `functions => {name => …}` -/
+  funcs : List FnDecl := []
   deriving Repr, Inhabited
 
 /-- one level of a resolved type -/
@@ -256,6 +268,8 @@ structure Level where
   serialization : Option (List String)
   /-- the type parameters the level declares (each held as `Optional[T]`) -/
   params : List (String × Ty) := []
+  /-- the member functions the level declares -/
+  funcs : List FnDecl := []
   deriving DecidableEq, Repr, Inhabited
 
 /-- a resolved type: itself, then its ancestors -/
@@ -399,6 +413,34 @@ def typeParams : OType → List (String × Ty)
 
 def isParameterized (t : OType) : Bool := !(typeParams t).isEmpty
 
+/-- own functions first, then the parent's (GetFunction).  In the universe of the driver no function shares its name with
+    an attribute or constant of its chain, so this is `Member` / `members(true).Get` restricted to functions. -/
+def findFn : OType → String → Option FnDecl
+  | [], _ => none
+  | l :: p, n =>
+    match l.funcs.find? (fun f => f.name == n) with
+    | some f => some f
+    | none => findFn p n
+
+/-- annotatedmember.go assertOverride / assertCanBeOverridden for a member function (against an inherited FUNCTION of that
+    name; `Callable[[0,0],R]` accepts `Callable[[0,0],R']` iff `R` accepts `R'`) -/
+def assertOverrideFn (parent : OType) (f : FnDecl) : Except Code Unit :=
+  match findFn parent f.name with
+  | none => if f.override then .error .overriddenNotFound else .ok ()
+  | some pf =>
+    if pf.final then .error .overrideOfFinal
+    else if !f.override then .error .overrideIsMissing
+    else if !asg pf.ret f.ret then .error .overrideTypeMismatch
+    else .ok ()
+
+/-- InitFromHash, functions loop -/
+def defineFuncs (parent : OType) : List FnDecl → Except Code Unit
+  | [] => .ok ()
+  | f :: fs =>
+    match assertOverrideFn parent f with
+    | .error c => .error c
+    | .ok () => defineFuncs parent fs
+
 /-- objectType.InitFromHash: the definition numbered `env.length` against the earlier definitions `env`.  The
     `type_parameters` loop comes first: a type parameter cannot say `override => true` (TypeTypeParameter has no such
     member), so re-declaring an inherited one is always OVERRIDE_IS_MISSING. -/
@@ -409,6 +451,9 @@ def define (env : List OType) (d : Def) : Except Code OType :=
   match defineAttrs parent (d.decls parent) with
   | .error c => .error c
   | .ok attrs =>
+    match defineFuncs parent d.funcs with
+    | .error c => .error c
+    | .ok () =>
     match checkEquality attrs parent (d.equality.toList?.getD []) with
     | .error c => .error c
     | .ok () =>
@@ -416,7 +461,8 @@ def define (env : List OType) (d : Def) : Except Code OType :=
       | .error c => .error c
       | .ok () =>
         .ok ({ id := env.length, attrs := attrs, equality := d.equality.toList?,
-               includeType := d.includeType.getD true, serialization := d.serialization, params := d.params } :: parent)
+               includeType := d.includeType.getD true, serialization := d.serialization, params := d.params,
+               funcs := d.funcs } :: parent)
 
 /-- the definitions of one loader, accepted one after the other (the driver's `runDefs` prints the same recursion) -/
 def defineAll : List OType → List Def → Except Code (List OType)
@@ -587,7 +633,8 @@ def tyEqDeep : OType → OType → Bool
       l.attrs.all (fun a => match l'.attrs.find? (fun b => b.name == a.name) with
         | some b => attrEq a b
         | none => false)) &&
-    l.equality == l'.equality && l.serialization == l'.serialization && l.params == l'.params
+    l.equality == l'.equality && l.serialization == l'.serialization && l.params == l'.params &&
+    l.funcs == l'.funcs
   | _, _ => false
 
 def tyEq (t o : OType) : Bool := t == o || tyEqDeep t o
